@@ -20,6 +20,7 @@ def make_jobs(tier):
             J(kind='refusals', npts=(2, 2, 2), caps=c, deadline_s=dl, may_fail=True, narrow=True)
             J(kind='resampling', npts=(2, 2, 2), caps=c, deadline_s=dl, resample=True, narrow=True)
         J(kind='user starting mass', npts=(2, 2, 2), caps=(3, 2), deadline_s=dl, user_mass=True, narrow=True)
+        J(kind='real ground track over the geodesic oracle', npts=(2, 2, 2), caps=(3, 2), deadline_s=dl, track='real', narrow=True)
     else:
         dl = 3000
         for s_ in [s for s in itertools.product((2, 3, 4), repeat=3) if sum(s) <= 9]:
